@@ -551,12 +551,22 @@ func init() {
 			switch profile {
 			case 1:
 				o = base.with(c01PlainSwitches)
+				if (i/3)%2 == 1 {
+					// plain shapes WITH defaults (instances of the C10 compositions need `Plain` front-end output)
+					o = base.with(strings.Replace(c01PlainSwitches, ",-default", "", 1))
+				}
+				if i%12 == 10 {
+					// flat objects of constrained scalars (instances of the C08 composition)
+					o = base.with(c01PlainSwitches + ",-array,-dict,-ref,-ref.recursive,-enumS,-enumI,-any,-const.string,-const.int,-const.bool,-def.enum,-nullable,-elem.nullable")
+				}
 				o.NoForce = true
 			case 2:
 				o = base.with("+def.collection,+struct.empty,+int.hugeBounds")
 			}
 			d0 := genDefs(seed, i, o)
-			if profile == 1 {
+			if profile == 1 && (i/3)%2 == 1 {
+				d0 = c01HoistEnums(d0)
+			} else if profile == 1 {
 				d0 = c01DropDefaults(c01HoistEnums(d0))
 			}
 			id := fmt.Sprintf("f%doa", i)
